@@ -210,7 +210,7 @@ func (r *TypeRegistry) Convert(typ schema.Type) (*Type, error) {
 		switch attr.Kind {
 		case reflect.Int, reflect.Int64:
 			v := int(field.Int())
-			if v == 0 && len(s.Attrs) == 0 && !explicit {
+			if v == 0 && len(s.Attrs) == 0 && !explicit && !attr.Required {
 				break
 			}
 			s.Attrs = append([]*Attr{IntAttr(attr.Name, v)}, s.Attrs...)
